@@ -49,6 +49,24 @@ REQUIRED_GUARD_KEYS = {
                                     'assemblies_to_group'},
 }
 
+# R2c: relations between keys that one single rejection decision must
+# examine together (one line per impossible-input class of the property)
+REQUIRED_GUARD_RELATIONS = {
+    'DASSH_Input.check_pin': [
+        {'pin_pitch', 'pin_diameter'},                 # pitch < diameter
+        {'pin_diameter', 'clad_thickness'},            # clad > radius
+        {'wire_diameter', 'pin_pitch', 'pin_diameter'},  # wire > pin gap
+        {'duct_ftf', 'num_rings', 'pin_pitch', 'pin_diameter',
+         'wire_diameter'},                             # pins fit in duct
+    ],
+    'DASSH_Input.check_duct': [
+        {'duct_ftf', 'assembly_pitch'},                # duct >= pitch
+    ],
+    'DASSH_Input.check_unrodded_regions': [
+        {'z_lo', 'z_hi'},                              # inverted / overlap
+    ],
+}
+
 # R3: definite-assignment reports that are infeasible paths (one line each)
 DA_INFEASIBLE = {
     ('dassh.__main__:run_dassh', 'workers'):
@@ -251,8 +269,10 @@ def _error_helpers(repo, ci):
     return out
 
 
-def _influence_keys(fi, exprs):
-    """Constant string keys read (through locals) by the expressions."""
+def _influence_keys(fi, exprs, bind=None):
+    """Constant string keys read (through locals) by the expressions.
+    bind: {loop variable: value} fixes a literal-list loop variable."""
+    bind = bind or {}
     keys = set()
     seen = set()
     work = list(exprs)
@@ -265,6 +285,8 @@ def _influence_keys(fi, exprs):
                 c = const(n.slice)
                 if isinstance(c, str):
                     keys.add(c)
+                elif isinstance(n.slice, ast.Name) and n.slice.id in bind:
+                    keys.add(bind[n.slice.id])
                 elif isinstance(n.slice, ast.Name):
                     vals = IP._loop_values(fi.node, n.slice.id,
                                            getattr(n, 'lineno', 0))
@@ -370,8 +392,28 @@ def r2(ctx):
                           key=fi.full + ' | no error exit')
             continue
         got = set()
+        per_sink = []
         for c, ex in live:
-            got |= _influence_keys(fi, ex)
+            ks = _influence_keys(fi, ex)
+            got |= ks
+            # one decision per value of an enclosing literal-list loop
+            lits = [(src(l.target), U.literal_list(l.iter))
+                    for l in U.enclosing_loops(c) if isinstance(l, ast.For)
+                    and isinstance(l.target, ast.Name)
+                    and isinstance(U.literal_list(l.iter), (list, tuple))]
+            if lits:
+                nm, vals = lits[0]
+                for v in vals:
+                    per_sink.append(_influence_keys(fi, ex, {nm: v}))
+            else:
+                per_sink.append(ks)
+        for rel in REQUIRED_GUARD_RELATIONS.get(qual, []):
+            ctx.require(any(rel <= ks for ks in per_sink), 'C18.R2', fi,
+                        fi.node, 'no single rejection decision in %s examines '
+                        '%s together any more (the comparison between them '
+                        'was removed or rewired)' % (qual, sorted(rel)),
+                        key='%s | relation %s' % (fi.full,
+                                                  ','.join(sorted(rel))))
         missing = sorted(need - got)
         ctx.require(not missing, 'C18.R2', fi, fi.node,
                     'input key(s) %s no longer influence any error decision '
